@@ -29,3 +29,55 @@ Example C16_strict_witness :
   strict_accepts config_ty (DMap [(B "overrides", DMap [(B "anything", DMap [(B "depends", DSeq [DScalar (B "a")])])])]) = true /\
   strict_accepts config_ty (DMap [(B "overrides", DMap [(B "deb", DMap [(B "name", DScalar (B "a"))])])]) = false.
 Proof. vm_compute. repeat split. Qed.
+
+(* ---- the places Config.expandEnvVars writes to, read off nfpm.go on every run (Gen/ExpandSites.v) ---- *)
+From NfpmV Require Import Gen.ExpandSites.
+
+Fixpoint path_eqb (a b : list str) : bool :=
+  match a, b with
+  | [], [] => true
+  | x :: a', y :: b' => seqb x y && path_eqb a' b'
+  | _, _ => false
+  end.
+
+(* what the model does at the place a source site writes to agrees with what the source writes there *)
+Definition site_ok (s : list str * str) : bool :=
+  let '(p, k) := s in
+  if seqb k (B "scalar") then match expand_kind p with EScalar => true | _ => false end
+  else if seqb k (B "keyid") then match expand_kind p with EKeyID => true | _ => false end
+  else if seqb k (B "list") then match expand_kind p with EList => true | _ => false end
+  else if seqb k (B "contents") then
+    match expand_kind (p ++ [B "[]"; B "src"]), expand_kind (p ++ [B "[]"; B "dst"]) with EContent, EContent => true | _, _ => false end
+  else if has_prefix (B "pass") k then match expand_kind p with EPass _ => true | _ => false end
+  else false.
+
+(* a path of the configuration type is written to by some site *)
+Definition covered (p : list str) : bool :=
+  existsb (fun s => path_eqb p (fst s)
+                    || (seqb (snd s) (B "contents") && (path_eqb p (fst s ++ [B "[]"; B "src"]) || path_eqb p (fst s ++ [B "[]"; B "dst"]))))
+          expand_sites.
+
+Definition has_site (p : list string) (k : string) : bool :=
+  existsb (fun s => path_eqb (map B p) (fst s) && seqb (snd s) (B k)) expand_sites.
+
+(* expandEnvVars is still inside the translated shapes; every place it writes to is expanded the same way by the model *)
+Theorem C16_every_expansion_site_of_the_source_is_modelled :
+  expand_sites_translated = true /\ forallb site_ok expand_sites = true.
+Proof. vm_compute. split; reflexivity. Qed.
+Print Assumptions C16_every_expansion_site_of_the_source_is_modelled.
+
+(* and the other way round: every path of the configuration type (regenerated: Gen/TypeTree.v) that the model expands is
+   a place the source writes to - the model expands nothing the code does not *)
+Theorem C16_every_modelled_expansion_is_a_site_of_the_source :
+  forallb (fun p => match expand_kind p with ENone => true | _ => covered p end) (ty_paths 12 config_ty) = true.
+Proof. vm_compute. reflexivity. Qed.
+Print Assumptions C16_every_modelled_expansion_is_a_site_of_the_source.
+
+(* the passphrases: each format's field is first given $NFPM_PASSPHRASE and then, only when that one is not empty,
+   its own $NFPM_<FORMAT>_PASSPHRASE - the precedence of C16_passphrase_precedence *)
+Theorem C16_passphrase_sites :
+  forallb (fun fp => has_site [fst fp; "signature"; "-KeyPassphrase"] "pass:NFPM_PASSPHRASE"
+                     && has_site [fst fp; "signature"; "-KeyPassphrase"] (String.append "passif:NFPM_" (String.append (snd fp) "_PASSPHRASE")))
+          [("deb", "DEB"); ("rpm", "RPM"); ("apk", "APK")] = true.
+Proof. vm_compute. reflexivity. Qed.
+Print Assumptions C16_passphrase_sites.
